@@ -122,6 +122,30 @@ def build_pool(ctx, scratch):
             pool.append(('refused-undefined-%d' % len(pool), _streams.fault_descriptor(msg.bytes, pos, pos == 0, len(pool)), None))
         except Exception:
             pass
+    # a descriptor that only OTHER tables define (a local table set on the same WMO version) is in no table for this message: it
+    # is refused whatever table groups were built, evicted and rebuilt before
+    try:
+        B, D = R.load_tables(0, 0, 0, 33, 0)
+        added = 0
+        for ce, su, lv, _path in R.local_table_dirs():
+            Bl, Dl = R.load_tables(0, ce, su, 33, lv)
+            only = sorted(q for q in Dl if q not in D and all(m in B for m in Dl[q]))
+            only_b = sorted(e for e in Bl if e not in B)
+            for bad in ([rng.choice(only)] if only else []) + ([rng.choice(only_b)] if only_b else []):
+                msg = R.build_message([1001, 12001, 2001], B, D, R.Policy(rng), 1, False, 4,
+                                      dict(master_table_version=33, update_sequence_number=len(pool)))
+                fr = R.parse_frame(msg.bytes)
+                st = fr.sections[3][0] + 7 + 2
+                bb = bytearray(msg.bytes)
+                bb[st] = ((bad // 100000) << 6) | (bad // 1000 % 100)
+                bb[st + 1] = bad % 1000
+                pool.append(('refused-defined-only-by-local-%d_%d_%d-%06d' % (ce, su, lv, bad), bytes(bb), None))
+                added += 1
+            if added >= (2 if ctx.quick else 6):
+                break
+        ctx.count('refused_other_tables_messages_in_pool', added)
+    except Exception as e:
+        ctx.notes.append('refused-defined-only-by-local: %r' % (e,))
     # every shard covers all versions across its histories: messages over many versions
     for v in versions:
         if len(pool) >= n * 2 // 3:
@@ -278,12 +302,19 @@ def run_history(ctx, pool, gold, limit, hno, alts):
     prev = 'start'
     prev_msg = None
     idxs = sorted(gold)
+    refused_idxs = [i for i in idxs if 'refused' in gold[i]]
+    ok_idxs = [i for i in idxs if 'refused' not in gold[i]]
     seen_keys = set()
     try:
         for step in range(STEPS[ctx.tier]):
             if not ctx.more():
                 break
-            i = rng.choice(idxs)
+            # refused pool messages take about one step in six (they are many: wide fields, undefined descriptors, descriptors
+            # that only other tables define), the rest goes to the operations on decodable messages
+            if refused_idxs and (not ok_idxs or rng.random() < 0.17):
+                i = rng.choice(refused_idxs)
+            else:
+                i = rng.choice(ok_idxs)
             name, b, _ = pool[i]
             g = gold[i]
             if 'refused' in g:
